@@ -678,6 +678,71 @@ class Function:
                         break
             if not dead:
                 out.append(fact)
+        return out + self._checker_facts(node, loc)
+
+    # --- checks hoisted into helpers --------------------------------------------------------------------
+    def _checker_calls(self):
+        """calls of small repository functions (void checkers, value-returning validators, in member initialisers or statements)
+        whose normal completion establishes facts: [(call node, callee, [(condition in the caller's terms, polarity, fact)])]"""
+        cached = getattr(self, "_checker_call_cache", None)
+        if cached is not None:
+            return cached
+        out = []
+        self._checker_call_cache = out            # recursion guard: a callee's own checker facts are not followed
+        if _PROGRAM is None:
+            return out
+        for c in self.walk():
+            if not (c.k in ("CallExpr", "CXXMemberCallExpr") and c.callee and c.callee.get("repo")) or c.callee.get("virt"):
+                continue
+            if any(a.k == "LambdaExpr" for a in c.ancestors()):
+                continue
+            g = _PROGRAM.functions.get(c.callee.get("usr"))
+            if g is None or g.usr == self.usr or g.get("nodes", 0) > 400 or not g.throw_blocks():
+                continue
+            if self.block_of(c) is None:
+                continue
+            g.blocks
+            if not g.blocks:
+                continue
+            fs = []
+            for fact in g.facts_at_block(g.exit, normal_exit=True):
+                if not fact.rejects_by_throw and not fact.belief:
+                    continue
+                sub = inline_expr(fact.cond, g, c)
+                if sub is not None:
+                    fs.append((sub, fact.pol, fact))
+            if fs:
+                out.append((c, g, fs))
+        return out
+
+    def _checker_facts(self, node, loc):
+        out = []
+        calls = self._checker_calls()
+        if not calls:
+            return out
+        for (c, g, fs) in calls:
+            cl = self.block_of(c)
+            if cl is None or c.id == node.id or any(a.id == c.id for a in node.ancestors()):
+                continue
+            if not self.precedes(c, node):
+                continue
+            after = None
+            for (sub, pol, fact) in fs:
+                terms = self._terms(sub)
+                dead = False
+                if terms:
+                    anyfield = any(t[0] == "field" for t in terms)
+                    if after is None:
+                        after = self.reachable_from_succs(cl[0])
+                    for (wb, wi, k) in self._writes():
+                        if not (k in terms or (anyfield and k == ("field", "*"))):
+                            continue
+                        # a write after the call (and not provably after the node) makes the established fact stale
+                        if (wb == cl[0] and wi > cl[1] and not (loc[0] == cl[0] and wi > loc[1])) or (wb != cl[0] and wb in after):
+                            dead = True
+                            break
+                if not dead:
+                    out.append(Fact(sub, pol, fact.belief, fact.rejects_by_throw, cl[0], ()))
         return out
 
     def reachable_from_succs(self, bid):
@@ -704,6 +769,107 @@ class Function:
         return b not in r and b in self.reachable(self.entry)
 
 
+_PROGRAM = None            # the program being analysed (set by Program.load): lets expression-level helpers see callee bodies
+_SYNTH_ID = [-1000]
+
+
+def _written_locals(fn):
+    cache = getattr(fn, "_written_decl_ids", None)
+    if cache is None:
+        cache = set()
+        for x in fn.walk():
+            t = None
+            if x.k in ("BinaryOperator", "CompoundAssignOperator") and x.op and x.op.endswith("=") and x.op not in ("==", "!=", "<=", ">=") and x.c:
+                t = x.c[0].strip_all()
+            elif x.k == "UnaryOperator" and x.op in ("++", "--", "&") and x.c:
+                t = x.c[0].strip_all()
+            if t is not None and t.k == "DeclRefExpr" and t.decl:
+                cache.add(t.decl.get("id"))
+        fn._written_decl_ids = cache
+    return cache
+
+
+def inline_expr(expr, callee, call, depth=0):
+    """the callee's expression `expr` re-expressed in the caller of `call`: parameters replaced by the argument expressions, the
+    callee's single-definition locals by their initialisers, members of *this kept when the call is made on the caller's own
+    object.  -> Node (belonging to the caller's function), or None when it cannot be expressed there"""
+    if depth > 3 or callee is None:
+        return None
+    args = call.call_args()
+    params = callee.params
+    pidx = {p.get("id"): i for i, p in enumerate(params)}
+    written = _written_locals(callee)
+    obj = call.call_object() if call.k == "CXXMemberCallExpr" else None
+    on_this = call.k == "CXXMemberCallExpr" and (obj is None or obj.strip_all().k == "CXXThisExpr") and call.fn is not None \
+        and call.fn.cls == callee.cls and not (call.callee or {}).get("static")
+
+    def conv(n, d):
+        if d > 40:
+            return None
+        k = n.k
+        if k == "DeclRefExpr" and n.decl:
+            dk = n.decl.get("k")
+            if dk == "parm":
+                i = pidx.get(n.decl.get("id"))
+                if i is None or i >= len(args) or n.decl.get("id") in written or args[i].k == "CXXDefaultArgExpr":
+                    return None
+                return args[i].j            # the caller's own expression, ids and all
+            if dk in ("local", "binding"):
+                if n.decl.get("id") in written:
+                    return None
+                init = _single_def(n)
+                if init is None:
+                    return None
+                return conv(init, d + 1)
+            if dk in ("func", "global", "enumconst"):
+                return dict(n.j)
+            return dict(n.j) if dk not in ("field",) else None
+        if k == "CXXThisExpr":
+            return dict(n.j) if on_this else None
+        if k == "MemberExpr" and n.decl and n.decl.get("k") == "field" and (not n.c or n.c[0].strip_all().k == "CXXThisExpr"):
+            if not on_this:
+                return None
+        if k in ("LambdaExpr", "CXXThrowExpr", "CXXNewExpr"):
+            return None
+        j = {kk: vv for kk, vv in n.j.items() if kk != "c"}
+        _SYNTH_ID[0] -= 1
+        j["id"] = _SYNTH_ID[0]
+        j["l"] = call.line
+        j["_inl"] = (call.j.get("_inl", 0) or 0) + 1
+        kids = []
+        for ch in n.c:
+            cj = conv(ch, d + 1)
+            if cj is None:
+                return None
+            kids.append(cj)
+        if kids:
+            j["c"] = kids
+            # roles refer to children by id: rebuild from positions
+            if "r" in n.j:
+                pos = {ch.id: i for i, ch in enumerate(n.c)}
+                j["r"] = {name: kids[pos[rid]].get("id") for name, rid in n.j["r"].items() if rid in pos}
+        return j
+    j = conv(expr, 0)
+    if j is None:
+        return None
+    return Node(j, call.fn)
+
+
+def predicate_body(call):
+    """for a call of a small repository predicate with a single `return <expr>;` -> (callee function, returned expression), else None"""
+    if _PROGRAM is None or not (call.k in ("CallExpr", "CXXMemberCallExpr") and call.callee and call.callee.get("repo")) or call.callee.get("virt"):
+        return None
+    if (call.j.get("_inl", 0) or 0) >= 3:
+        return None
+    g = _PROGRAM.functions.get(call.callee.get("usr"))
+    if g is None or g.get("nodes", 0) > 250 or (call.fn is not None and g.usr == call.fn.usr):
+        return None
+    rets = [x for x in g.walk() if x.k == "ReturnStmt" and not any(a.k == "LambdaExpr" for a in x.ancestors())]
+    if len(rets) != 1 or not rets[0].c:
+        return None
+    return (g, rets[0].c[0])
+
+
 def atoms_of(fact_cond, pol):
     """Expand a branch outcome into a conjunction of atomic outcomes where possible:
        !(X) -> flip; (X && Y)=true -> X,Y true; (X || Y)=false -> X,Y false.  Other shapes stay compound."""
@@ -727,6 +893,15 @@ def atoms_of(fact_cond, pol):
             # const bool ok = (a == b); ... if (!ok) throw;   -> look through the flag
             depth_guard += 1
             stack.append((_single_def(n), p))
+        elif n.k in ("CallExpr", "CXXMemberCallExpr") and n.tc == "bool" and depth_guard < 40 and predicate_body(n) is not None:
+            # if (!_window_fits(n, win)) throw;  with  bool _window_fits(n, win) { return win.size() == n + 1; }
+            # -> the returned expression in the caller's terms; the call itself stays in the list for rules that know the callee
+            g, e = predicate_body(n)
+            sub = inline_expr(e, g, n)
+            out.append((n, p))
+            if sub is not None:
+                depth_guard += 1
+                stack.append((sub, p))
         else:
             out.append((n, p))
     return out
@@ -752,9 +927,38 @@ def _single_def(ref):
                     written.add(l.decl.get("id"))
         for i, ds in defs.items():
             if len(ds) == 1 and ds[0].c and i not in written:
-                cache[i] = ds[0].c[0]
+                cache[i] = _through_identity_helper(ds[0].c[0])
         fn._single_def_cache = cache
     return cache.get(ref.decl["id"])
+
+
+def _through_identity_helper(init):
+    """const int n = _checked_order(order);  where every return of the helper hands back that parameter unchanged: the local
+    *is* the argument (the helper's checks are facts of their own, see Function._checker_facts)"""
+    e = init.strip_all()
+    if _PROGRAM is None or not (e.k in ("CallExpr", "CXXMemberCallExpr") and e.callee and e.callee.get("repo")) or e.callee.get("virt"):
+        return init
+    g = _PROGRAM.functions.get(e.callee.get("usr"))
+    if g is None or g.get("nodes", 0) > 250:
+        return init
+    rets = [x for x in g.walk() if x.k == "ReturnStmt" and x.c and not any(a.k == "LambdaExpr" for a in x.ancestors())]
+    if not rets:
+        return init
+    pid = None
+    for r in rets:
+        v = r.c[0].strip_all()
+        if not (v.k == "DeclRefExpr" and v.decl and v.decl.get("k") == "parm"):
+            return init
+        if pid is not None and v.decl.get("id") != pid:
+            return init
+        pid = v.decl.get("id")
+    if pid in _written_locals(g):
+        return init
+    idx = [i for i, p in enumerate(g.params) if p.get("id") == pid]
+    args = e.call_args()
+    if not idx or idx[0] >= len(args) or args[idx[0]].k == "CXXDefaultArgExpr":
+        return init
+    return args[idx[0]]
 
 
 class Program:
@@ -774,6 +978,8 @@ class Program:
     @classmethod
     def load(cls, paths):
         p = cls()
+        global _PROGRAM
+        _PROGRAM = p
         for path in sorted(paths):
             with open(path) as fh:
                 j = json.load(fh)
